@@ -91,23 +91,31 @@ theorem toS64_id (x : Int) (h : fitsS 8 x = true) : toS 64 x = x := by
   simp [fitsS, leB_iff, ltB_iff] at h
   simp [toS]; omega
 
-/-- date from a millisecond count: the specification's day (FLOOR) + 2^31, unless the count is negative and not a
-    whole number of days (Go's `/` truncates toward zero there) -/
+/-- marshal.go daysSinceEpoch (truncating `/`, then one less when the truncated remainder is negative) is the FLOOR
+    of ts / 86400000 for every int64 — also before 1970 -/
+theorem daysSinceEpoch_floor (ts : Int) : daysSinceEpoch ts = ts / 86400000 := by
+  unfold daysSinceEpoch goDiv goMod millisInADay
+  simp only [Int.tdiv_eq_ediv, Int.tmod_eq_emod]
+  have hs : Int.sign 86400000 = 1 := by decide
+  by_cases h0 : 0 ≤ ts
+  · simp [h0]; omega
+  · by_cases hd : (86400000:Int) ∣ ts
+    · simp [hd]
+      have := Int.emod_eq_zero_of_dvd hd
+      omega
+    · have hm : ts % 86400000 ≠ 0 := fun h => hd (Int.dvd_of_emod_eq_zero h)
+      simp only [h0, hd, or_self, if_false, hs]
+      have : (Int.natAbs 86400000 : Int) = 86400000 := by decide
+      rw [this]
+      split <;> omega
+
+/-- date from a millisecond count: the specification's day (FLOOR) + 2^31, for every count whose day is in range -/
 theorem encDateMillis_spec (ts : Int)
-    (hfloor : ¬ (ts < 0 ∧ ts % 86400000 ≠ 0))
     (hrange : fitsU 4 (ts / 86400000 + 2147483648) = true) :
     encDateMillis ts = beBytes 4 (ts / 86400000 + 2147483648).toNat := by
   simp [fitsU, leB_iff, ltB_iff] at hrange
-  have hdiv : goDiv ts millisInADay = ts / 86400000 := by
-    unfold goDiv millisInADay
-    rw [Int.tdiv_eq_ediv]
-    by_cases h0 : 0 ≤ ts
-    · simp [h0]
-    · have hm : ts % 86400000 = 0 := by omega
-      have : (86400000:Int) ∣ ts := Int.dvd_of_emod_eq_zero hm
-      simp [this]
   unfold encDateMillis
-  rw [hdiv, encInt_eq, tcEnc_toS32, tcEnc]
+  rw [daysSinceEpoch_floor, encInt_eq, tcEnc_toS32, tcEnc]
   congr 1
   omega
 
